@@ -53,7 +53,10 @@ func c05trim(p *Prog, r *Report) {
 			continue
 		}
 		handed := argN(ne, i)
-		okHand := handed != nil && flowsFrom(handed, func(x ssa.Value) bool { fv, _ := fieldOf(x); return fv == f })
+		// the WHOLE pool is handed over: every source of the value is the pool field itself (a prefix /
+		// a filtered copy on some path would leave items that the trim by len(pool) then drops unplaced)
+		okHand := handed != nil && flowsFrom(handed, func(x ssa.Value) bool { fv, _ := fieldOf(x); return fv == f }) &&
+			allSources(handed, func(x ssa.Value) bool { fv, _ := fieldOf(x); return fv == f })
 		var stores []*FieldWrite
 		for _, w := range p.writersOf(f) {
 			if w.Fn == fn {
@@ -63,7 +66,7 @@ func c05trim(p *Prog, r *Report) {
 		ok := okHand && len(stores) == 1
 		detail := ""
 		if !okHand {
-			detail = "NewEvent is not handed the pool itself"
+			detail = "NewEvent is not handed the pool itself on every path (a prefix or a copy of part of it: the items left out are trimmed away with the rest and never placed in an event)"
 		} else if len(stores) != 1 {
 			detail = fmt.Sprintf("expected exactly one trim store, found %d", len(stores))
 		}
